@@ -64,6 +64,7 @@ func gen(g *hx.Gen) {
 	r := g.R
 	var cv bfCover
 	for i := 0; i < n; i++ {
+		g.Stat("checked.dst==src+roundtrip") // exec runs Encrypt/Decrypt in place and both round trips on every op
 		switch i % 9 {
 		case 0: // TEA
 			kl := 16
